@@ -165,7 +165,8 @@ def generate(rng, config):
         files, index = make_files(rng)
         want = None
     c = cligrammar.command_line(rng, tool, want_random=want, seed=seed,
-                                transforms=True, options=True, files=index)
+                                transforms=True, options=True, files=index,
+                                document=0.04)
     argv = c["argv"][1:]
     if files:
         case["files"] = {k: v["data"] for k, v in files.items()
